@@ -7,6 +7,15 @@ REPO = os.environ.get("VERIF_REPO", "/repo")
 BUILD = os.environ.get("VERIF_BUILD", os.path.join(ROOT, "build"))
 COQ = os.path.join(ROOT, "coq")
 NPROC = os.cpu_count() or 4
+if os.environ.get("VERIF_NPROC"):
+    NPROC = max(1, int(os.environ["VERIF_NPROC"]))
+else:
+    # a machine shared with other runs of these checks: do not add 16 more workers to an overloaded box
+    try:
+        if os.getloadavg()[0] > 2 * NPROC:
+            NPROC = max(2, NPROC // 4)
+    except OSError:
+        pass
 
 SAN_FLAGS = "-O1 -g -fsanitize=address,undefined -fno-sanitize=nonnull-attribute -fno-sanitize-recover=all -fno-omit-frame-pointer -DGMSSL_VERIF"
 VARIANTS = {
